@@ -42,6 +42,14 @@ fn program_for(seed: u64, idx: u64, rows: usize) -> (Arc<Program>, Inputs) {
     b.finish()
 }
 
+/// Labels of the main circuits: longer than 32 bytes with a long common
+/// prefix, so that anything that identifies a label by less than all of its
+/// bytes makes this process (which uses several of them) differ from a fresh
+/// process that uses one.
+fn label_for(idx: u64) -> String {
+    format!("dusk-plonk/verif/c18/determinism-and-history/circuit-{idx}")
+}
+
 fn script_for(seed: u64, idx: u64, job: u64) -> Vec<BlsScalar> {
     let mut rng = case_rng(seed, "C18.script", idx * 1000 + job);
     (0..14).map(|_| rand_scalar(&mut rng)).collect()
@@ -76,7 +84,7 @@ pub fn child(sub: &str) -> i32 {
     let idx: u64 = parts[2].parse().unwrap_or(0);
     let rows: usize = parts[3].parse().unwrap_or(16);
     let (prog, inputs) = program_for(seed, idx, rows);
-    match run_once(&prog, &inputs, format!("c18-{idx}").as_bytes(), &script_for(seed, idx, 0), rows) {
+    match run_once(&prog, &inputs, label_for(idx).as_bytes(), &script_for(seed, idx, 0), rows) {
         Ok(d) => {
             println!("DIGEST {}", d.line());
             0
@@ -139,7 +147,7 @@ pub fn run(tier: Tier, seed: u64) -> i32 {
     for (idx, &rows) in sizes.iter().enumerate() {
         let idx = idx as u64;
         let (prog, inputs) = program_for(seed, idx, rows);
-        let label = format!("c18-{idx}");
+        let label = label_for(idx);
         let script = script_for(seed, idx, 0);
         let parallel = 8 * rows.next_power_of_two() >= 4096;
         let base = match run_once(&prog, &inputs, label.as_bytes(), &script, rows) {
@@ -247,7 +255,7 @@ pub fn run(tier: Tier, seed: u64) -> i32 {
                 bad[600] ^= 1;
                 let bad_ok = Proof::from_bytes(&bad).map(|p| verifier.verify(&p, &pi).is_ok()).unwrap_or(false);
                 // concurrent compile under a distinct label (label cache)
-                let l = format!("c18-label-{idx}-{j}");
+                let l = format!("dusk-plonk/verif/c18/concurrent-compile/label-{idx}-{j}");
                 let small = build_small(seed, j);
                 let spp = crate::util::pp(32);
                 let keys = common::compile(&spp, l.as_bytes(), &small).map(|c| blake_hex(&c.verifier.to_bytes())).map_err(|f| f.text())?;
@@ -311,7 +319,7 @@ pub fn run(tier: Tier, seed: u64) -> i32 {
         let mut jobs: Vec<(Arc<Program>, Inputs, String, Vec<BlsScalar>, usize, Digests)> = Vec::new();
         for (k, rows) in [(90u64, 40usize), (91, 9), (92, 130)] {
             let (prog, inputs) = program_for(seed, k, rows);
-            let label = format!("c18-hist-{k}");
+            let label = label_for(k);
             let script = script_for(seed, k, 0);
             match std::thread::scope(|s| s.spawn(|| run_once(&prog, &inputs, label.as_bytes(), &script, rows)).join().unwrap()) {
                 Ok(d) => jobs.push((prog, inputs, label, script, rows, d)),
